@@ -85,7 +85,40 @@ def gen_loop():
         if r is None:   # shape not recognised: keep the committed value, the correspondence run decides
             r = prev_value("Loop.lean", key, "true") == "true"
         flags[key] = r
-    out = HEADER % "src/microhttpd/internal.h, src/microhttpd/daemon.c" + "namespace Mhd.Gen.Loop\n"
+    # which connections MHD_epoll takes off the eready list after their handlers ran: only those waiting for READ exactly
+    eb = _func_body(dsrc, "MHD_epoll") or ""
+    k = eb.find("call_handlers (pos")
+    seg = eb[k:eb.find("EDLL_remove", k)] if k >= 0 else ""
+    if re.search(r"MHD_EVENT_LOOP_INFO_READ\s*==\s*pos->event_loop_info|pos->event_loop_info\s*==\s*MHD_EVENT_LOOP_INFO_READ", seg):
+        drop_exact = True
+    elif re.search(r"MHD_EVENT_LOOP_INFO_READ\s*&\s*pos->event_loop_info|pos->event_loop_info\s*&\s*MHD_EVENT_LOOP_INFO_READ", seg):
+        drop_exact = False
+    else:
+        drop_exact = prev_value("Loop.lean", "ereadyDropExactRead", "true") == "true"
+    # the state -> event_loop_info table of MHD_connection_update_event_loop_info (unconditional cases only)
+    csrc = src("src/microhttpd/connection.c")
+    body = _func_body(csrc, "MHD_connection_update_event_loop_info") or ""
+    table, labels = {}, []
+    for line in body.splitlines():
+        m = re.match(r"\s*case (MHD_CONNECTION_\w+):", line)
+        if m:
+            labels.append(m.group(1)); continue
+        m = re.match(r"\s*connection->event_loop_info = (MHD_EVENT_LOOP_INFO_\w+);", line)
+        if m and labels and labels != ["MHD_CONNECTION_BODY_RECEIVING"]:
+            for lb in labels:
+                table[lb] = m.group(1)
+            labels = []; continue
+        if re.match(r"\s*(if|else|mhd_assert|break|return|switch|\{|\})", line) or "/*" in line:
+            if re.match(r"\s*(if|mhd_assert|break|return)", line):
+                labels = []
+    classes = {"READ": [], "WRITE": [], "PROCESS": []}
+    if table:
+        vals = c_eval('#include "MHD_config.h"\n#include "internal.h"\n', [(k, "%d", "(int) " + k) for k in sorted(table)])
+        for k, e in table.items():
+            cls = e.replace("MHD_EVENT_LOOP_INFO_", "")
+            if cls in classes:
+                classes[cls].append(int(vals[k]))
+    out = HEADER % "src/microhttpd/internal.h, src/microhttpd/daemon.c, src/microhttpd/connection.c" + "namespace Mhd.Gen.Loop\n"
     for k in ("stInit", "stHeadersSending", "stNormalBodyReady", "stChunkedBodyReady", "stClosed",
               "eliRead", "eliWrite", "eliProcess", "eliProcessRead", "eliCleanup",
               "epReadReady", "epWriteReady", "epInEready", "epInEpollSet", "epSuspended", "epError"):
@@ -93,8 +126,24 @@ def gen_loop():
     out += "/-- does the connection traversal of `internal_run_from_select` read `pos->prev` before it calls the handlers? -/\n"
     for k in ("selectSavesPrev", "pollSavesPrev", "epollSavesPrev"):
         out += "def %s : Bool := %s\n" % (k, "true" if flags[k] else "false")
+    out += "/-- MHD_epoll drops a connection from eready for `READ == event_loop_info` (not for `READ & event_loop_info`) -/\n"
+    out += "def ereadyDropExactRead : Bool := %s\n" % ("true" if drop_exact else "false")
+    out += "/-- states for which MHD_connection_update_event_loop_info unconditionally answers READ / WRITE / PROCESS -/\n"
+    for cls, nm in (("READ", "readStates"), ("WRITE", "writeStates"), ("PROCESS", "processStates")):
+        if table:
+            out += "def %s : List Nat := [%s]\n" % (nm, ", ".join(str(x) for x in sorted(classes[cls])))
+        else:
+            out += "def %s : List Nat := %s\n" % (nm, prev_list(nm))
     out += "end Mhd.Gen.Loop\n"
     return vlib.write_if_changed(GEN_PATH, out)
+
+
+def prev_list(name):
+    try:
+        m = re.search(r"def %s : List Nat := (\[[^\]]*\])" % name, open(GEN_PATH).read())
+        return m.group(1) if m else "[]"
+    except OSError:
+        return "[]"
 
 
 # ------------------------------------------------------------------ scenarios
@@ -146,6 +195,23 @@ def profile(kind, c):
     if kind == "N":    # chunk-size line larger than the arena: handle_req_chunk_size_line_no_space
         return dict(req=b"POST /k HTTP/1.1\r\nHost: a\r\nTransfer-Encoding: chunked\r\n\r\n" + b"0" * 1500 + b"5\r\nhello\r\n0\r\n\r\n",
                     setup=[], extra=70, mem=1024)
+    if kind == "k":    # chunked POST, handler takes one byte per call (PROCESS_READ: unprocessed upload data stays in the buffer)
+        return dict(req=b"POST /k HTTP/1.1\r\nHost: a\r\nTransfer-Encoding: chunked\r\n\r\n5\r\nhello\r\n0\r\n\r\n",
+                    setup=["beh %d 0 u=1" % c], extra=10)
+    if kind == "p":    # POST with Content-Length, handler takes 3, 1, all (a handler that takes NOTHING while all data has
+                       # arrived and does not suspend makes MHD wait for more network data by design: outside the property)
+        return dict(req=b"POST /p HTTP/1.1\r\nHost: a\r\nContent-Length: 8\r\n\r\nhellohel",
+                    setup=["beh %d 0 u=3,1,all" % c], extra=8)
+    if kind == "F":    # file response larger than two sendfile chunks (needs cfg sigpipe=1 for sendfile in the application's thread)
+        return dict(req=G, setup=["resp %d kind=fd size=300000" % rid, "beh %d 0 l=r%d" % (c, rid)], extra=10, sigpipe=1, tcp=1)
+    if kind == "f":    # small file response at an offset
+        return dict(req=G, setup=["resp %d kind=fdoff size=700" % rid, "beh %d 0 l=r%d" % (c, rid)], extra=4, sigpipe=1, tcp=1)
+    if kind == "o":    # unterminated first header line, exactly as many bytes as the arena holds (nothing else is stored yet)
+        return dict(req=(b"GET /index.html HTTP/1.1\r\nX-Filler: " + b"a" * 2000)[:1024], setup=[], extra=70, mem=1024)
+    if kind == "u":    # unterminated request target, exactly arena-size bytes
+        return dict(req=(b"GET /" + b"u" * 2000)[:1024], setup=[], extra=70, mem=1024)
+    if kind == "t":    # unterminated method token, exactly arena-size bytes
+        return dict(req=(b"G" * 2000)[:1024], setup=[], extra=70, mem=1024)
     if kind == "T":    # method token larger than the arena: closed without a reply in MHD_connection_update_event_loop_info
         return dict(req=b"G" * 1500 + b" / HTTP/1.1\r\nHost: a\r\n\r\n", setup=[], extra=70, mem=1024)
     if kind == "X":    # chunk extension larger than the arena (the double error response path, F9)
@@ -169,20 +235,26 @@ class Case:
       readiness in this round (select only).  Every event ends with one event-loop round.  After the
       events the application keeps calling the loop as the API demands (`drain`)."""
 
-    def __init__(self, name, mode, profs, events, drain=24, timeout=0, strict=False, suspend=1):
+    def __init__(self, name, mode, profs, events, drain=24, timeout=0, strict=False, suspend=1, cut=None):
         self.name, self.mode, self.profs, self.events, self.drain, self.timeout = name, mode, profs, events, drain, timeout
         self.suspend = suspend    # MHD_ALLOW_SUSPEND_RESUME (implies the inter-thread channel: add/resume make a watched fd readable)
         self.strict = strict      # the application calls the loop only when the API obliges it to (timeout known or watched fd ready)
         self.P = [profile(k, c) for c, k in enumerate(profs)]
+        self.cut = cut            # connection 0 sends only the first `cut` bytes of its request (prefix sweeps); then it is
+        if cut is not None:       # not known to be complete: only the cross-back-end comparison judges it
+            self.P[0] = dict(self.P[0], req=self.P[0]["req"][:cut], incomplete=True)
 
     def key(self):
-        return "%s|%s|%s|%d%s%s" % (self.mode, "".join(self.profs), " ".join("".join(e) for e in self.events), self.timeout,
-                                    "s" if self.strict else "", "" if self.suspend else "n")
+        return "%s|%s|%s|%d%s%s%s" % (self.mode, "".join(self.profs), " ".join("".join(e) for e in self.events), self.timeout,
+                                      "s" if self.strict else "", "" if self.suspend else "n",
+                                      "" if self.cut is None else "c%d" % self.cut)
 
     def lines(self):
         mem = max([p.get("mem", 0) for p in self.P] + [0])
+        sp = max([p.get("sigpipe", 0) for p in self.P] + [0])
+        tcp = max([p.get("tcp", 0) for p in self.P] + [0])
         out = ["case " + self.name,
-               "cfg mode=%s suspend=%d%s%s" % (self.mode, self.suspend, " mem=%d" % mem if mem else "", " timeout=%d" % self.timeout if self.timeout else ""),
+               "cfg mode=%s suspend=%d%s%s%s" % (self.mode, self.suspend, (" sigpipe=1" if sp else "") + (" tcp=1" if tcp else ""), " mem=%d" % mem if mem else "", " timeout=%d" % self.timeout if self.timeout else ""),
                "start"]
         for p in self.P:
             out += p["setup"]
@@ -392,6 +464,7 @@ def to_driver(case, items):
 
 ST_CLOSED = 22          # refreshed from Gen by law_monitor's caller (Spec.build)
 ELI = {"read": 1, "write": 2, "process": 4, "processRead": 5, "cleanup": 8}
+TABLE = {}              # state -> event_loop_info MHD_connection_update_event_loop_info must leave (from Gen)
 
 
 def law_monitor(items, tmo0=True):
@@ -401,6 +474,8 @@ def law_monitor(items, tmo0=True):
       idle_where  it moves it only active -> suspended/cleanup or suspended -> cleanup;
       idle_closed after handle_idle a closed connection is in the cleanup list, not in the active one (tmo0: no timeouts);
       read_force  handle_read (socket_error = true) leaves the connection closed;
+      idle_table  after handle_idle an active connection's event_loop_info is the one its state calls for (sending states
+                  WRITE, "unready"/full-request states PROCESS, line/header receiving states READ; table from Gen);
       idle_quiet  handle_idle on a connection without pending work that is blocked on the network (no PROCESS bit, not
                   read-ready while waiting to read, not write-ready while waiting to write; monitored for the first
                   call on a connection in a round that is not in eready) leaves it blocked, or in a PROCESS state,
@@ -423,6 +498,9 @@ def law_monitor(items, tmo0=True):
                 w1, t1 = where_of(snap, c)
                 if (w0, w1) not in (("A", "A"), ("A", "S"), ("A", "C"), ("S", "S"), ("S", "C"), ("C", "C")):
                     errs.append("idle_where: handler %s moved c=%d from %s to %s" % (kind, c, w0, w1))
+                if kind == "idle" and w1 == "A" and t1 is not None and t1[1] in TABLE and t1[2] != TABLE[t1[1]]:
+                    errs.append("idle_table: after handle_idle c=%d is in state %d with event_loop_info %d (the state's wait class is %d)"
+                                % (c, t1[1], t1[2], TABLE[t1[1]]))
                 if kind == "idle" and w1 == "A" and t1 is not None and t1[1] == ST_CLOSED and tmo0:
                     errs.append("idle_closed: handle_idle left the closed connection c=%d in the active list" % c)
                 if kind == "idle" and w0 == "A" and w1 == "A" and t0 is not None and t1 is not None:
@@ -510,79 +588,84 @@ def oracle(case, items):
         return gone[c] or reply_complete(wire[c], case.P[c].get("head", False))
 
     def awaiting(c):
-        return sent_done[c] and not cclosed[c] and not suspended[c] and case.profs[c] != "W" and not served(c)
+        return sent_done[c] and not cclosed[c] and not suspended[c] and case.profs[c] != "W" and \
+            not case.P[c].get("incomplete") and not served(c)
 
-    evq = list(case.events)
-    nround = 0
-    for it in items:
-        if it[0] == "other":
-            if it[1].startswith("drain-exhausted"):
+    case.final_served = None
+    try:
+        evq = list(case.events)
+        nround = 0
+        for it in items:
+            if it[0] == "other":
+                if it[1].startswith("drain-exhausted"):
+                    aw = [c for c in range(n) if awaiting(c)]
+                    if aw:
+                        errs.append(("spinning-while-awaiting", "the loop was still demanded after the drain budget, clients %s unserved" % aw, nround))
+                continue
+            if it[0] == "resume":
+                c = it[1]
+                if c < n:
+                    suspended[c] = False
+                    fair[c] = 0
+                rep = it[2]
+            elif it[0] == "arrive":
+                rep = it[3]
+            elif it[0] in ("round", "skipped"):
+                rep = it[2]
+                ev = evq.pop(0) if evq else tuple("-" * n)
+                for c in range(n):
+                    a = ev[c]
+                    if a in "Qr" and not sent_done[c]:
+                        sent_done[c] = True; fair[c] = 0
+                    if a in "XW":
+                        cclosed[c] = True
+                if it[0] == "round":
+                    for ln in it[1].app:
+                        m = re.match(r"suspend c=(\d+)", ln)
+                        if m and int(m.group(1)) < n:
+                            suspended[int(m.group(1))] = True
+                    nround += 1
+                    for c in range(n):
+                        if ev[c] != "H":
+                            fair[c] += 1
+            else:
+                continue
+            for ln in rep.get("io", []):
+                m = re.match(r"wire c=(\d+) (\S+)", ln)
+                if m and int(m.group(1)) < n:
+                    wire[int(m.group(1))] += bytes.fromhex(m.group(2)); continue
+                m = re.match(r"(eof|rst) c=(\d+)", ln)
+                if m and int(m.group(2)) < n:
+                    gone[int(m.group(2))] = True
+            kr = rep.get("kready", "")
+            any_ready = ("ep=1" in kr) or ("itc=1" in kr) or any(v for v in parse_idlist(kr).values())
+            if rep.get("hint") == "none" and not any_ready:
+                stuck = [t[0] for t in rep.get("state", {}).get("A", []) if t[2] == ELI["cleanup"]]
+                if stuck:
+                    errs.append(("quiescent-with-closed-connection",
+                                 "after round %d: hint none, no watched descriptor ready, but connections %s are marked closed and "
+                                 "still in the active list (not cleaned up); state %s" % (nround, stuck, rep.get("state")), nround))
+                    break
                 aw = [c for c in range(n) if awaiting(c)]
                 if aw:
-                    errs.append(("spinning-while-awaiting", "the loop was still demanded after the drain budget, clients %s unserved" % aw, nround))
-            continue
-        if it[0] == "resume":
-            c = it[1]
-            if c < n:
-                suspended[c] = False
-                fair[c] = 0
-            rep = it[2]
-        elif it[0] == "arrive":
-            rep = it[3]
-        elif it[0] in ("round", "skipped"):
-            rep = it[2]
-            ev = evq.pop(0) if evq else tuple("-" * n)
+                    st = rep.get("state", {})
+                    tok = [t for t in st.get("A", []) if t[0] == aw[0]]
+                    what = "connection marked closed but left in the active list" if tok and tok[0][2] == ELI["cleanup"] else \
+                           "connection waits for processing" if tok and (tok[0][2] & ELI["process"]) else \
+                           "connection waits for the wrong event" if tok else "connection is in no active list"
+                    errs.append(("quiescent-while-awaiting (%s)" % what,
+                                 "after round %d: hint none, no watched descriptor ready, but clients %s (profiles %s) have "
+                                 "sent a complete request and have neither a full reply nor a close; state %s"
+                                 % (nround, aw, [case.profs[c] for c in aw], st), nround))
+                    break
             for c in range(n):
-                a = ev[c]
-                if a in "Qr" and not sent_done[c]:
-                    sent_done[c] = True; fair[c] = 0
-                if a in "XW":
-                    cclosed[c] = True
-            if it[0] == "round":
-                for ln in it[1].app:
-                    m = re.match(r"suspend c=(\d+)", ln)
-                    if m and int(m.group(1)) < n:
-                        suspended[int(m.group(1))] = True
-                nround += 1
-                for c in range(n):
-                    if ev[c] != "H":
-                        fair[c] += 1
-        else:
-            continue
-        for ln in rep.get("io", []):
-            m = re.match(r"wire c=(\d+) (\S+)", ln)
-            if m and int(m.group(1)) < n:
-                wire[int(m.group(1))] += bytes.fromhex(m.group(2)); continue
-            m = re.match(r"(eof|rst) c=(\d+)", ln)
-            if m and int(m.group(2)) < n:
-                gone[int(m.group(2))] = True
-        kr = rep.get("kready", "")
-        any_ready = ("ep=1" in kr) or ("itc=1" in kr) or any(v for v in parse_idlist(kr).values())
-        if rep.get("hint") == "none" and not any_ready:
-            stuck = [t[0] for t in rep.get("state", {}).get("A", []) if t[2] == ELI["cleanup"]]
-            if stuck:
-                errs.append(("quiescent-with-closed-connection",
-                             "after round %d: hint none, no watched descriptor ready, but connections %s are marked closed and "
-                             "still in the active list (not cleaned up); state %s" % (nround, stuck, rep.get("state")), nround))
-                break
-            aw = [c for c in range(n) if awaiting(c)]
-            if aw:
-                st = rep.get("state", {})
-                tok = [t for t in st.get("A", []) if t[0] == aw[0]]
-                what = "connection marked closed but left in the active list" if tok and tok[0][2] == ELI["cleanup"] else \
-                       "connection waits for processing" if tok and (tok[0][2] & ELI["process"]) else \
-                       "connection waits for the wrong event" if tok else "connection is in no active list"
-                errs.append(("quiescent-while-awaiting (%s)" % what,
-                             "after round %d: hint none, no watched descriptor ready, but clients %s (profiles %s) have "
-                             "sent a complete request and have neither a full reply nor a close; state %s"
-                             % (nround, aw, [case.profs[c] for c in aw], st), nround))
-                break
-        for c in range(n):
-            if awaiting(c) and fair[c] > BASE_ROUNDS + case.P[c].get("extra", 0):
-                errs.append(("not-served-within-bound", "client %d (profile %s) unserved after %d fair rounds (bound %d)"
-                             % (c, case.profs[c], fair[c], BASE_ROUNDS + case.P[c].get("extra", 0)), nround))
-                return errs
-    return errs
+                if awaiting(c) and fair[c] > BASE_ROUNDS + case.P[c].get("extra", 0):
+                    errs.append(("not-served-within-bound", "client %d (profile %s) unserved after %d fair rounds (bound %d)"
+                                 % (c, case.profs[c], fair[c], BASE_ROUNDS + case.P[c].get("extra", 0)), nround))
+                    return errs
+        return errs
+    finally:
+        case.final_served = [served(c) for c in range(n)]
 
 
 # ------------------------------------------------------------------ generators
@@ -633,12 +716,38 @@ def gen_exhaustive(mode, length, prof_pairs, strict=False, suspend=1):
                 yield Case("x", mode, [pa, pb], evs, strict=strict, suspend=suspend)
 
 
+def gen_directed():
+    """scenario classes that every run covers in both back-ends, with the eager and with the obligation-only application:
+    piecewise consumed uploads next to an idle keep-alive connection, file responses larger than a sendfile chunk,
+    requests that fill the arena exactly, plus prefix sweeps of oversized requests around the arena size (pairs
+    select/epoll for the cross-back-end comparison).  -> (cases, pairs)"""
+    cases, pairs = [], []
+    one = [("A",), ("Q",)]
+    two = [("A", "A"), ("Q", "-"), ("-", "Q")]
+    two_b = [("A", "A"), ("Q", "Q")]
+    for mode in ("select", "epoll"):
+        for strict in (False, True):
+            for profs, evs in ((["k"], one), (["G", "k"], two), (["G", "k"], two_b), (["k", "G"], two), (["p"], one), (["G", "p"], two),
+                               (["G", "K"], two), (["k", "k"], two_b), (["F"], one), (["G", "F"], two), (["F", "C"], two_b), (["f"], one),
+                               (["o"], one), (["u"], one), (["t"], one), (["G", "o"], two), (["o", "C"], two_b)):
+                cases.append(Case("d", mode, profs, evs, drain=100, strict=strict))
+    for shape in "OUTo":
+        full = len(profile(shape, 0)["req"])
+        for n in range(1024 - 72, 1024 + 4):
+            if n > full:
+                continue
+            a = Case("w", "select", [shape], one, drain=100, strict=True, cut=n)
+            b = Case("w", "epoll", [shape], one, drain=100, strict=True, cut=n)
+            cases += [a, b]; pairs.append((a, b))
+    return cases, pairs
+
+
 def gen_random(rng, mode, nconn=None):
     n = nconn or rng.choice([1, 2, 2, 3, 3])
-    pool = "GGCcSLPKEHMmRW"
+    pool = "GGCcSLPKEHMmRWkpf"
     small = rng.random() < 0.25
     if small:
-        pool = "GCSOUNXMT"
+        pool = "GCSOUNXMTkout"
     profs = [rng.choice(pool) for _ in range(n)]
     P = [profile(k, c) for c, k in enumerate(profs)]
     length = rng.randint(2, 9)
@@ -710,6 +819,7 @@ class Spec:
     props_module = "Mhd.Props.C06"
     lean_targets = ["Mhd.Props.C06", "drv_loop"]
     required_theorems = ["Mhd.C06.code_select_saves_prev", "Mhd.C06.code_poll_saves_prev", "Mhd.C06.code_epoll_saves_prev",
+                         "Mhd.C06.code_eready_drop_exact", "Mhd.C06.wait_table_sane", "Mhd.C06.round_wait_class",
                          "Mhd.C06.call_handlers_idles", "Mhd.C06.call_handlers_sync",
                          "Mhd.C06.select_round_post", "Mhd.C06.poll_round_post", "Mhd.C06.epoll_round_post",
                          "Mhd.C06.pending_flag", "Mhd.C06.pending_flag_epoll", "Mhd.C06.round_leaves_no_closed",
@@ -741,12 +851,17 @@ class Spec:
         gen_loop()
 
     def build(self, ctx):
-        global ST_CLOSED, ELI
+        global ST_CLOSED, ELI, TABLE
         try:        # numeric codes the monitor and the oracle use to read the white-box snapshots: from the regenerated file
             g = dict(re.findall(r"def (\w+) : Nat := (\d+)", open(GEN_PATH).read()))
             ST_CLOSED = int(g.get("stClosed", ST_CLOSED))
             ELI = {"read": int(g["eliRead"]), "write": int(g["eliWrite"]), "process": int(g["eliProcess"]),
                    "processRead": int(g["eliProcessRead"]), "cleanup": int(g["eliCleanup"])}
+            TABLE = {}
+            for nm, e in (("readStates", "read"), ("writeStates", "write"), ("processStates", "process")):
+                m = re.search(r"def %s : List Nat := \[([^\]]*)\]" % nm, open(GEN_PATH).read())
+                for x in (m.group(1).split(",") if m and m.group(1).strip() else []):
+                    TABLE[int(x)] = ELI[e]
         except (OSError, KeyError, ValueError):
             pass
         self.harness = vlib.build_daemon_harness(name="h_loop", src="harness/h_loop.c", ldextra=[WRAP, "-ldl"])
@@ -814,6 +929,7 @@ class Spec:
                         stats["quiescent_reports"] += 1
             law = law_monitor(items, tmo0=(cs.timeout == 0))
             orc = oracle(cs, items)
+            cs.orc_errs = orc
             if orc:
                 kind, det, at = orc[0]
                 failures.append(vlib.Failure("oracle", "loop: %s mode=%s" % (kind, cs.mode), det + " | case " + cs.key(), cs.lines(), "loop"))
@@ -862,9 +978,12 @@ class Spec:
         thorough = ctx.tier == "thorough"
         cases = self.corpus()
         ncorp = len(cases)
+        directed, pairs = gen_directed()
+        cases += directed
         exh_len = 5 if thorough else 4
         pairs_sel = [(a, b) for a in "GCS" for b in "GCS"] if not thorough else [(a, b) for a in "GCSM" for b in "GCSM"]
-        pairs_ep = [("G", "C"), ("C", "G"), ("C", "C"), ("S", "C"), ("C", "S")] if not thorough else [(a, b) for a in "GCS" for b in "GCS"]
+        pairs_ep = [("G", "C"), ("C", "G"), ("C", "C"), ("S", "C"), ("C", "S"), ("G", "k"), ("k", "C")] if not thorough else \
+            [(a, b) for a in "GCSk" for b in "GCSk"]
         exh = []
         for L in range(1, exh_len + 1):
             exh += list(gen_exhaustive("select", L, pairs_sel))
@@ -883,6 +1002,21 @@ class Spec:
         rnd = [gen_random(ctx.rng, ctx.rng.choice(["select", "select", "epoll"])) for _ in range(nrand)]
         allc = cases + exh + rnd
         self.run_parallel(allc, failures, stats)
+        # the same client bytes must be answered (or not) independently of the polling back-end
+        ndiffer = 0
+        for a, b in pairs:
+            fa, fb = getattr(a, "final_served", None), getattr(b, "final_served", None)
+            if fa is None or fb is None or getattr(a, "orc_errs", None) or getattr(b, "orc_errs", None):
+                continue
+            if fa[0] != fb[0]:
+                ndiffer += 1
+                bad = a if not fa[0] else b
+                failures.append(vlib.Failure("oracle", "loop: served-differs-between-backends (unserved in %s)" % bad.mode,
+                                             "client 0 sent the same %d bytes (profile %s prefix) and nothing more; with the %s back-end it got a "
+                                             "reply/close, with the %s back-end the daemon became quiescent without serving it | case %s"
+                                             % (a.cut, a.profs[0], (b if bad is a else a).mode, bad.mode, bad.key()), bad.lines(), "loop"))
+        stats["backend_pairs"] = len(pairs)
+        stats["backend_pairs_differ"] = ndiffer
         # order failures: oracle first (concrete), shortest script first
         failures.sort(key=lambda f: (0 if f.kind == "oracle" else 1 if f.kind == "sanitizer" else 2, len(f.input)))
         modes = {}
@@ -900,7 +1034,7 @@ class Spec:
                "samples": [allc[ncorp].key() if len(allc) > ncorp else "", exh[len(exh) // 2].key(), rnd[0].key() if rnd else ""],
                "exhaustive_schedules_select": nsel, "exhaustive_schedules_epoll": nstrict0 - nsel,
                "exhaustive_schedules_strict_application": len(exh) - nstrict0, "exhaustive_bound_events": exh_len,
-               "random_histories": len(rnd), "corpus": ncorp, "modes": modes, "profiles": profs, "outcomes": stats,
+               "random_histories": len(rnd), "corpus": ncorp, "directed": len(directed), "modes": modes, "profiles": profs, "outcomes": stats,
                "correspondence": {"call_handlers / internal_run_from_select / MHD_epoll / resume / new-connection processing / cleanup / "
                                   "internal_get_fdset2 / MHD_get_timeout64 (class)": "bounded-exhaustive (schedules <= %d events, 2 connections) + random %d" % (exh_len, len(rnd)),
                                   "MHD_poll_all": "model and theorems only (no external poll mode exists; internal-thread lock-step not built)"},
@@ -914,13 +1048,13 @@ def replay(ctx, path):
     lines = r["input"]
     # rebuild the Case from the recorded key
     det = r.get("detail", "")
-    m = re.search(r"case (\w+)\|(\w+)\|([^|]*)\|(\d+)(s?)(n?)", det)
+    m = re.search(r"case (\w+)\|(\w+)\|([^|]*)\|(\d+)(s?)(n?)(?:c(\d+))?", det)
     if not m:
         print("replay: cannot find the case key in the replay file"); return 2
     n = len(m.group(2))
     evs = [tuple(e) for e in m.group(3).split(" ") if e]
     cs = Case("replay", m.group(1), list(m.group(2)), evs, drain=100, timeout=int(m.group(4)), strict=bool(m.group(5)),
-              suspend=0 if m.group(6) else 1)
+              suspend=0 if m.group(6) else 1, cut=int(m.group(7)) if m.group(7) else None)
     fl, st = [], {k: 0 for k in ("cases", "rounds", "calls", "rounds_with_close_or_suspend_and_survivor", "rounds_with_suspend",
                                  "rounds_with_new", "rounds_ending_in_process", "quiescent_reports", "oracle_violations", "diffs")}
     sp.run_batch([cs], fl, st)
